@@ -20,6 +20,7 @@
 #include "TFEL/Math/st2tost2.hxx"
 #include "TFEL/Math/t2tost2.hxx"
 #include "TFEL/Math/t2tot2.hxx"
+#include "mock.hxx"
 #include "TFEL/Material/MechanicalBehaviour.hxx"
 #include "TFEL/Material/MechanicalBehaviourTraits.hxx"
 #include "TFEL/Material/FiniteStrainBehaviourTangentOperator.hxx"
@@ -33,77 +34,57 @@ using namespace tfel::math;
 using FSTO = tfel::material::FiniteStrainBehaviourTangentOperatorBase;
 constexpr auto H1D = tfel::material::ModellingHypothesis::AXISYMMETRICALGENERALISEDPLANESTRAIN;
 constexpr auto H3D = tfel::material::ModellingHypothesis::TRIDIMENSIONAL;
+constexpr auto H1DPS = tfel::material::ModellingHypothesis::AXISYMMETRICALGENERALISEDPLANESTRESS;
+constexpr auto H2D = tfel::material::ModellingHypothesis::GENERALISEDPLANESTRAIN;
+constexpr auto H2DPS = tfel::material::ModellingHypothesis::PLANESTRESS;
 
-// ------------------------------------------------------------------ Hooke behaviour for the real wrapper (double)
-template <tfel::material::ModellingHypothesis::Hypothesis H>
-struct Hooke : public tfel::material::MechanicalBehaviourBase,
-               public tfel::material::TangentOperatorTraits<tfel::material::MechanicalBehaviourBase::STANDARDSTRAINBASEDBEHAVIOUR> {
-  static constexpr unsigned short N = tfel::material::ModellingHypothesisToSpaceDimension<H>::value;
-  static constexpr auto StensorSize = tfel::material::ModellingHypothesisToStensorSize<H>::value;
-  using real = double;
-  using stress = double;
-  using speed = double;
-  using massdensity = double;
-  stensor<N, double> eto1, sig;
-  st2tost2<N, double> Dt;
-  double lambda, mu;
-  explicit Hooke(const mfront_gb_BehaviourData& d) {
-    for (int i = 0; i != StensorSize; ++i) eto1[i] = d.s1.gradients[i];
-    lambda = d.s1.material_properties[0];
-    mu = d.s1.material_properties[1];
-  }
-  void setOutOfBoundsPolicy(const tfel::material::OutOfBoundsPolicy) {}
-  bool initialize() { return true; }
-  void checkBounds() const {}
-  speed computeSpeedOfSound(const massdensity) const { return 0; }
-  void stiffness() { Dt = lambda * st2tost2<N, double>::IxI() + 2 * mu * st2tost2<N, double>::Id(); }
-  IntegrationResult computePredictionOperator(const SMFlag, const SMType) {
-    stiffness();
-    return SUCCESS;
-  }
-  const st2tost2<N, double>& getTangentOperator() const { return Dt; }
-  std::pair<bool, real> computeAPrioriTimeStepScalingFactor(const real) const { return {true, 1.}; }
-  IntegrationResult integrate(const SMFlag, const SMType) {
-    stiffness();
-    sig = lambda * trace(eto1) * stensor<N, double>::Id() + 2 * mu * eto1;
-    return SUCCESS;
-  }
-  std::pair<bool, real> computeAPosterioriTimeStepScalingFactor(const real) const { return {true, 1.}; }
-  void exportStateData(mfront_gb_State& s) const {
-    for (int i = 0; i != StensorSize; ++i) s.thermodynamic_forces[i] = sig[i];
-  }
-  real getMinimalTimeStepScalingFactor() const { return 0.1; }
-};
-namespace tfel::material {
-  template <ModellingHypothesis::Hypothesis H>
-  struct MechanicalBehaviourTraits<Hooke<H>> {
-    static constexpr bool is_defined = true;
-    static constexpr bool hasConsistentTangentOperator = true;
-    static constexpr bool hasPredictionOperator = true;
-    static constexpr bool hasComputeInternalEnergy = false;
-    static constexpr bool hasComputeDissipatedEnergy = false;
-  };
-}  // namespace tfel::material
-namespace mfront::gb {
-  template <tfel::material::ModellingHypothesis::Hypothesis H>
-  struct GenericBehaviourTraits<Hooke<H>> {
-    static constexpr auto hypothesis = H;
-  };
-}  // namespace mfront::gb
+// ------------------------------------------------------------------ behaviour classes for the real wrappers (double): mock.hxx
+using c55::Hooke;
 
 // ------------------------------------------------------------------ the traced sequence (generic in the scalar)
 // outputs: stress in the requested measure (TensorSize values, symmetric measures padded with 0) then the operator
 // (TensorSize x TensorSize values, padded with 0)
-template <unsigned short N, typename T>
-std::vector<T> green_lagrange_pipeline(const tensor<N, T>& F0, const tensor<N, T>& F1, const T& lambda, const T& mu, const int sm,
-                                       const int smf) {
+// AX >= 0: plane stress hypothesis whose axial component is AX (PLANESTRESS: 2, AXISYMMETRICALGENERALISEDPLANESTRESS: 1); then
+// a0 is the axial strain at the beginning of the step (internal state variable) and, as in the header, the strain is computed from
+// the gradients as given, the axial deformation gradients sqrt(1 + 2 e_axial) are ADDED to the axial components of F0 (before the
+// behaviour is called, from a0) and of F1 (after it, from the axial strain the behaviour exports)
+template <unsigned short N, typename T, int AX = -1>
+std::vector<T> green_lagrange_pipeline(const tensor<N, T>& F0g, const tensor<N, T>& F1g, const T& lambda, const T& mu, const int sm,
+                                       const int smf, const T& a0 = T(0)) {
   using tfel::material::convert;
   constexpr int TS = N == 1 ? 3 : (N == 2 ? 5 : 9);
   constexpr int SS = N == 1 ? 3 : (N == 2 ? 4 : 6);
+  tensor<N, T> F0 = F0g, F1 = F1g;
   const stensor<N, T> e1 = computeGreenLagrangeTensor(F1);
-  // the behaviour: Hooke's law on the strain it is given
-  const stensor<N, T> S1 = lambda * trace(e1) * stensor<N, T>::Id() + 2 * mu * e1;
-  const st2tost2<N, T> K = lambda * st2tost2<N, T>::IxI() + 2 * mu * st2tost2<N, T>::Id();
+  using std::sqrt;
+  using symv::sqrt;
+  if constexpr (AX >= 0) F0[AX] += sqrt(1 + 2 * a0);
+  // the behaviour: Hooke's law on the strain it is given (plane stress: mock.hxx, Hooke<H>::integrate / stiffness)
+  stensor<N, T> S1;
+  st2tost2<N, T> K;
+  if constexpr (AX >= 0) {
+    T tr = T(0);
+    for (int i = 0; i != 3; ++i) {
+      if (i != AX) tr = tr + e1[i];
+    }
+    const T eaxial = -lambda * tr / (lambda + 2 * mu);
+    stensor<N, T> e = e1;
+    e[AX] = eaxial;
+    S1 = lambda * trace(e) * stensor<N, T>::Id() + 2 * mu * e;
+    S1[AX] = T(0);
+    const T ls = 2 * lambda * mu / (lambda + 2 * mu);
+    for (auto& x : K) x = T(0);
+    for (int i = 0; i != 3; ++i) {
+      for (int j = 0; j != 3; ++j) {
+        if (i != AX && j != AX) K(i, j) = (i == j) ? T(ls + 2 * mu) : ls;
+      }
+    }
+    for (int i = 3; i != SS; ++i) K(i, i) = 2 * mu;
+    F1[AX] += sqrt(1 + 2 * eaxial);
+  } else {
+    S1 = lambda * trace(e1) * stensor<N, T>::Id() + 2 * mu * e1;
+    K = lambda * st2tost2<N, T>::IxI() + 2 * mu * st2tost2<N, T>::Id();
+  }
   // post-processing
   const stensor<N, T> s1 = convertSecondPiolaKirchhoffStressToCauchyStress(S1, F1);
   std::vector<T> out;
@@ -181,9 +162,9 @@ std::vector<T> hencky_pipeline_1d(const tensor<1u, T>& F0, const tensor<1u, T>& 
 // ------------------------------------------------------------------ the real wrapper (double)
 template <tfel::material::ModellingHypothesis::Hypothesis H, bool hencky>
 std::vector<double> real_wrapper(const std::vector<double>& F0, const std::vector<double>& F1, const double lambda, const double mu,
-                                 const int sm, const int smf, int& rc) {
+                                 const int sm, const int smf, int& rc, const double a0 = 0) {
   constexpr int TS = tfel::material::ModellingHypothesisToTensorSize<H>::value;
-  double K[96], tf0[9] = {0}, tf1[9] = {0}, mp[2] = {lambda, mu}, isv0[1] = {0}, isv1[1] = {0}, esv[1] = {293.}, rho = 1., rdt = 1., sos = 0.;
+  double K[96], tf0[9] = {0}, tf1[9] = {0}, mp[2] = {lambda, mu}, isv0[1] = {a0}, isv1[1] = {a0}, esv[1] = {293.}, rho = 1., rdt = 1., sos = 0.;
   char err[512] = {0};
   for (auto& k : K) k = 0;
   K[0] = 4;
@@ -285,6 +266,82 @@ int main(const int argc, const char* const* argv) {
       }
     }
 #endif
+  }
+  // ------------------------------ 1D plane stress (AXISYMMETRICALGENERALISEDPLANESTRESS): axial component 1, axial strain = isv 0
+  {
+    auto f = vars("f", 3);
+    auto g = vars("g", 3);
+    Sym la = var("la"), mu = var("mu"), a0 = var("a0");
+    std::vector<Sym> ps{f[0], f[1], f[2], g[0], g[1], g[2], a0, la, mu};
+    tensor<1u, Sym> F0, F1;
+    for (int i = 0; i != 3; ++i) {
+      F0[i] = g[i];
+      F1[i] = f[i];
+    }
+    for (int sm = 0; sm != 3; ++sm) {
+      for (int smf = 0; smf != 4; ++smf) {
+        const auto out = green_lagrange_pipeline<1u, Sym, 1>(F0, F1, la, mu, sm, smf, a0);
+        if (smf == 0) tr.def(std::string("gl1ps_stress_") + smn[sm], ps, std::vector<Sym>(out.begin(), out.begin() + 3));
+        if (sm == 0) tr.def(std::string("gl1ps_") + tn[smf], ps, std::vector<Sym>(out.begin() + 3, out.end()));
+        for (int k = 0; k != nsamples; ++k) {
+          // the axial slot of the gradients: 0 (what a caller is expected to give), or anything (the header adds to it)
+          const double z0 = (k % 2) ? 0.1 * U(rng) : 0., z1 = (k % 2) ? 0.1 * U(rng) : 0.;
+          std::vector<double> f0{1 + 0.3 * U(rng), z0, 1 + 0.3 * U(rng)}, f1{1 + 0.3 * U(rng), z1, 1 + 0.3 * U(rng)};
+          const double l = 100e9 * (1.2 + U(rng)), m = 80e9 * (1.2 + U(rng)), ax0 = 0.15 * U(rng);
+          Env env{{"f0", f1[0]}, {"f1", f1[1]}, {"f2", f1[2]}, {"g0", f0[0]}, {"g1", f0[1]}, {"g2", f0[2]}, {"a0", ax0}, {"la", l}, {"mu", m}};
+          int rc = 0;
+          const auto real = real_wrapper<H1DPS, false>(f0, f1, l, m, sm, smf, rc, ax0);
+          agree(std::string("gl1ps:") + smn[sm] + ":" + tn[smf], out, env, real, rc);
+        }
+      }
+    }
+  }
+  // ------------------------------ 2D: general in-plane F (xx yy zz xy yx), generalised plane strain and plane stress
+  {
+    auto f = vars("f", 5);
+    auto g = vars("g", 5);
+    Sym la = var("la"), mu = var("mu"), a0 = var("a0");
+    std::vector<Sym> ps(f.begin(), f.end());
+    ps.push_back(la);
+    ps.push_back(mu);
+    tensor<2u, Sym> F0, F1;
+    for (int i = 0; i != 5; ++i) {
+      F0[i] = g[i];
+      F1[i] = f[i];
+    }
+    for (int pstress = 0; pstress != 2; ++pstress) {
+      const std::string pre = pstress ? "gl2ps" : "gl2";
+      for (int sm = 0; sm != 3; ++sm) {
+        // the stresses do not depend on F0 nor on a0
+        const auto out = pstress ? green_lagrange_pipeline<2u, Sym, 2>(F0, F1, la, mu, sm, 1, a0) : green_lagrange_pipeline<2u, Sym>(F0, F1, la, mu, sm, 1);
+        tr.def(pre + "_stress_" + smn[sm], ps, std::vector<Sym>(out.begin(), out.begin() + 5));
+        for (int smf = 0; smf != 4; ++smf) {
+          const auto outk = smf == 1 ? out
+                                     : (pstress ? green_lagrange_pipeline<2u, Sym, 2>(F0, F1, la, mu, sm, smf, a0)
+                                                : green_lagrange_pipeline<2u, Sym>(F0, F1, la, mu, sm, smf));
+          for (int k = 0; k != nsamples; ++k) {
+            std::vector<double> f0(5), f1(5);
+            for (int i = 0; i != 5; ++i) {
+              f0[i] = (i < 3 ? 1. : 0.) + 0.15 * U(rng);
+              f1[i] = (i < 3 ? 1. : 0.) + 0.25 * U(rng);
+            }
+            if (pstress) {
+              f0[2] = (k % 2) ? 0.1 * U(rng) : 0.;
+              f1[2] = (k % 2) ? 0.1 * U(rng) : 0.;
+            }
+            const double l = 100e9 * (1.2 + U(rng)), m = 80e9 * (1.2 + U(rng)), ax0 = pstress ? 0.15 * U(rng) : 0.;
+            Env env{{"la", l}, {"mu", m}, {"a0", ax0}};
+            for (int i = 0; i != 5; ++i) {
+              env["f" + std::to_string(i)] = f1[i];
+              env["g" + std::to_string(i)] = f0[i];
+            }
+            int rc = 0;
+            const auto real = pstress ? real_wrapper<H2DPS, false>(f0, f1, l, m, sm, smf, rc, ax0) : real_wrapper<H2D, false>(f0, f1, l, m, sm, smf, rc);
+            agree(pre + ":" + smn[sm] + ":" + tn[smf], outk, env, real, rc);
+          }
+        }
+      }
+    }
   }
   // ------------------------------ 3D: stresses (every component), general F
   {
